@@ -121,6 +121,8 @@ def gen_world(rng, prop):
         for s in solvers[1:]:
             s["cls"] = solvers[0]["cls"]
     w["solvers"] = solvers
+    if sum(1 for s in solvers if s.get("cmon")) >= 2 and rng.random() < 0.4:
+        w["cmon_shared"] = True
     # fields
     nf = wchoice(rng, [(1, 50), (2, 35), (3, 15)])
     fields = []
